@@ -465,6 +465,15 @@ def run(ctx):
     with open(probe, "w") as f:
         f.write("2000-01-01 00:00:00.100 +00:00 a\n2000-01-01 00:00:00.500 +00:00 b\n2000-01-01 00:00:00.900 +00:00 c\n")
 
+    r0 = run_case(None, None, None, probe)
+    if r0["rc"] != 0 or r0["now"] is None:
+        ctx.obligation_broken("correspondence", "cannot read 'Datetime Now' from the summary", json.dumps(dict(rc=r0["rc"])))
+        return ctx.finish()
+    now0 = r0["now"]      # used for runs that were rejected (they print no summary)
+
+    def now_of(r):
+        return r["now"] if r["now"] is not None else now0
+
     ztab = ref_zone_table()
     names_ok = [k for k, v in ztab if v]
     names_amb = [k for k, v in ztab if not v]
@@ -542,7 +551,7 @@ def run(ctx):
     for (fa, fb, tzs, wf, _), (ha, hb, _), r in zip(ccases, cargs, cres):
         oc = r["outcome"]
         rows.append("(%s, %s, %s, %s, %s, %s, %s, (%d, %s, %s))" % (coq_form(fa), coq_form(fb), hexs(ha), hexs(hb), cbool(wf),
-                    zc(tz_secs(tzs)), zc(r["now"] if r["now"] is not None else 0), oc[0], zc(oc[1]), zc(oc[2])))
+                    zc(tz_secs(tzs)), zc(now_of(r)), oc[0], zc(oc[1]), zc(oc[2])))
     sbad = coq_shards(ctx, "spec", rows, "option form * option form * option string * option string * bool * Z * Z * outcome", "spec_bad", "spec-evaluation")
     spec_fail = 0
     gen_bad = 0
@@ -601,11 +610,12 @@ def run(ctx):
     rows = []
     for (a, b, tzs), r in zip(bcases, bres):
         oc = r["outcome"]
-        rows.append('(%s, %s, "%s", %s, (%d, %s, %s))' % (hexs(a), hexs(b), tzs.encode().hex(), zc(r["now"] if r["now"] is not None else 0), oc[0], zc(oc[1]), zc(oc[2])))
+        rows.append('(%s, %s, "%s", %s, (%d, %s, %s))' % (hexs(a), hexs(b), tzs.encode().hex(), zc(now_of(r)), oc[0], zc(oc[1]), zc(oc[2])))
     mbad = coq_shards(ctx, "model", rows, "option string * option string * string * Z * outcome", "model_bad", "correspondence")
     model_dis = 0
     if mbad is not None:
         model_dis = len(mbad)
+        ctx.coverage['model_disagreement_samples'] = [dict(a=bcases[i][0], b=bcases[i][1], tz_offset=bcases[i][2], impl=list(bres[i]['outcome']), rc=bres[i]['rc'], model=list(m)) for i, m in sorted(mbad.items())[:40]]
         for i, m in sorted(mbad.items())[:1]:
             a, b, tzs = bcases[i]
             ctx.obligation_broken("correspondence", "s4 --summary filter lines / exit status vs Model.CliDt.cli_bounds",
@@ -623,8 +633,8 @@ def run(ctx):
     sub_checked = 0
     sub_fail = 0
     if fidx:
-        rows_m = ["(%s, %s, \"%s\", %s)" % (hexs(cargs[i][0]), hexs(cargs[i][1]), cargs[i][2].encode().hex(), zc(cres[i]["now"])) for i in fidx]
-        rows_s = ["(%s, %s, %s, %s)" % (coq_form(ccases[i][0]), coq_form(ccases[i][1]), zc(tz_secs(ccases[i][2])), zc(cres[i]["now"])) for i in fidx]
+        rows_m = ["(%s, %s, \"%s\", %s)" % (hexs(cargs[i][0]), hexs(cargs[i][1]), cargs[i][2].encode().hex(), zc(now_of(cres[i]))) for i in fidx]
+        rows_s = ["(%s, %s, %s, %s)" % (coq_form(ccases[i][0]), coq_form(ccases[i][1]), zc(tz_secs(ccases[i][2])), zc(now_of(cres[i]))) for i in fidx]
         mns = coq_shards(ctx, "model_ns", rows_m, "option string * option string * string * Z", "model_ns", "correspondence")
         sns = coq_shards(ctx, "spec_ns", rows_s, "option form * option form * Z * Z", "spec_ns", "spec-evaluation")
         if mns is not None and sns is not None:
